@@ -60,6 +60,10 @@ def compositions(n):
 
 def cases(tier, rng, boost=1):
     yield _mk('write', table=[[1, -2, 30000], [4, 5, -6]], hdr='my # header\nsecond line', fmt='f5', src='corpus')
+    # a LONG single-column file whose limits miss the row count by one (a relative comparison of the totals would accept it) and one whose limits fit
+    longcol = [[(k * 7) % 11] for k in range(150000)]
+    for lims_ in ([50000, 60000, 40001], [50000, 60000, 39999], [50000, 60000, 40000]):
+        yield _mk('read', table=longcol, transpose=False, usecols=None, nrows=None, dtype='int64', micro=False, limits=lims_, layout='plain', src='corpus-long')
     yield _mk('read', table=[[1, 40000, 3]], transpose=True, usecols=None, nrows=None, dtype='int32', micro=True, limits=None, layout='plain',
               src='corpus')                                                                  # D6
     yield _mk('read', table=[[10, 11, 12], [20, 21, 22]], transpose=False, usecols=[1, 2, 0], nrows=None, dtype='int64', micro=False,
